@@ -139,32 +139,33 @@ h_zif_open(void)
 		CHECK(z->ntr <= SIZE / 5 && z->nty <= SIZE / 6, "counts bounded by the file size");
 #if defined LOADCHK
 		/* faithful loading (C12): a version 1 image of exactly
-		 * 44 + 3*4 + 3 + 2*6 bytes; the loaded table is the file's table with
-		 * transitions to the *same type* merged -- nothing else dropped,
-		 * nothing reordered, offsets as written */
+		 * 44 + 4*NTR + NTR + 6*NTY bytes; the loaded table is the file's
+		 * table with transitions to the *same type* merged -- nothing else
+		 * dropped, nothing reordered, offsets as written */
 		{
-			stamp_t etr[3];
-			unsigned int ety[3], n = 0;
-			for (unsigned int i = 0; i < 3; i++) {
+			stamp_t etr[H1_NTR];
+			unsigned int ety[H1_NTR], n = 0;
+			for (unsigned int i = 0; i < H1_NTR; i++) {
 				const unsigned char *q = vimg + 44 + 4 * i;
-				unsigned int ty = vimg[44 + 12 + i];
+				unsigned int ty = vimg[44 + 4 * H1_NTR + i];
 				uint32_t raw = (uint32_t)q[0] << 24 | (uint32_t)q[1] << 16 | (uint32_t)q[2] << 8 | q[3];
-				if (i == 0 || ty != vimg[44 + 12 + i - 1]) {
+				if (i == 0 || ty != vimg[44 + 4 * H1_NTR + i - 1]) {
 					etr[n] = (stamp_t)(int32_t)raw;
 					ety[n] = ty;
 					n++;
 				}
 			}
 			CHECK(z->ntr == n, "every transition to a different type is kept, transitions to the same type are merged");
-			for (unsigned int k = 0; k < 3; k++) {
+			for (unsigned int k = 0; k < H1_NTR; k++) {
 				if (k < n) {
 					CHECK(z->trs[k] == etr[k] && z->tys[k] == ety[k], "kept transitions carry the file's instant and type, in order");
 				}
 			}
-			for (unsigned int j = 0; j < 2; j++) {
-				const unsigned char *q = vimg + 44 + 15 + 6 * j;
+			CHECK(z->nty == H1_NTY, "as many offsets as the file has types");
+			for (unsigned int j = 0; j < H1_NTY; j++) {
+				const unsigned char *q = vimg + 44 + 5 * H1_NTR + 6 * j;
 				uint32_t raw = (uint32_t)q[0] << 24 | (uint32_t)q[1] << 16 | (uint32_t)q[2] << 8 | q[3];
-				CHECK(z->nty == 2 && z->ofs[j] == (int)(int32_t)raw, "offsets as written in the file");
+				CHECK(z->ofs[j] == (int)(int32_t)raw, "offsets as written in the file");
 			}
 		}
 #endif
